@@ -32,7 +32,7 @@ T = 'chainables.tree'
 
 
 def run(ctx: Ctx):
-  for r in (r1, r2, r3, r4, r5, r6, r7, r8, r9, r10, r11, r12, r13):
+  for r in (r1, r2, r3, r4, r5, r6, r7, r8, r9, r10, r11, r12, r13, r14, r15):
     ctx.guard(r)
 
 
@@ -689,10 +689,85 @@ def r13(ctx: Ctx):
   ctx.floor(rule, 2, n)
 
 
+def r14(ctx: Ctx):
+  rule = 'R-C18-14'
+  ctx.rule(rule, '"iterating a view lists every leaf exactly once with a path that reads back that leaf, multi-key reads return'
+           ' values aligned with the keys": keys(), values(), items() and len() of a view are ONE enumeration — keys() is'
+           ' built by iterating the view itself (the same __iter__ that values()/items()/len() go through, which drops the'
+           ' user key paths that do not resolve). A shortcut that returns the configured key paths lists paths that do not'
+           ' read back and misaligns zip(keys(), values())')
+  ci = ctx.repo.cls(T, 'TreeMapView')
+  n = 0
+  for name in ('keys', 'values', 'items', '__len__'):
+    fi = ci.methods.get(name)
+    if fi is None:
+      continue
+    rets = [r_ for r_ in ast.walk(fi.node) if isinstance(r_, ast.Return) and r_.value is not None]
+    for r_ in rets:
+      n += 1
+      over_self = any((isinstance(y, ast.comprehension) and unparse(y.iter) in ('self', 'iter(self)', 'self.keys()', 'self.items()'))
+                      or (isinstance(y, ast.Call) and unparse(y.func) in ('tuple', 'list', 'len', 'iter', 'sum', 'zip') and any(
+                          unparse(a) in ('self', 'iter(self)', 'self.keys()', 'self.items()', 'self.values()') for a in y.args))
+                      or (isinstance(y, ast.Call) and unparse(y.func) in ('self.__iter__', 'self.keys', 'self.items', 'self.__len__'))
+                      for y in ast.walk(r_.value))
+      what = f'TreeMapView.{name}: derived from the view\'s own enumeration'
+      if over_self:
+        ctx.ok(rule, fi, what, r_)
+      else:
+        ctx.fail(rule, fi, what,
+                 f'`{unparse(r_)[:70]}` in TreeMapView.{name} does not go through the iteration of the view: {name}() can list'
+                 ' key paths that __iter__ / values() drop (a path that does not resolve), so keys and values are no longer'
+                 ' aligned and a listed path does not read back', node=r_)
+  ctx.floor(rule, 3, n)
+
+
+def r15(ctx: Ctx):
+  rule = 'R-C18-15'
+  ctx.rule(rule, '"reading a path after a copying set returns the set value (incl. index append)": the copying setter decides on'
+           ' the object it writes to. In _set_by_path a kind test (isinstance) that guards a mutation of the working copy'
+           ' (`result.append(...)`) tests the WORKING COPY — for a tuple node the copy is a list while the original is not, so'
+           ' a test of the original refuses the append and a valid index-append on a tuple raises instead of extending it')
+  ci = ctx.repo.cls(T, 'TreeMapView')
+  fi = ci.methods.get('_set_by_path')
+  if fi is None:
+    raise AnalysisError('TreeMapView._set_by_path not found')
+  pm = parent_map(fi.node)
+  n = 0
+  for c in ast.walk(fi.node):
+    if not (isinstance(c, ast.Call) and isinstance(c.func, ast.Attribute) and c.func.attr in ('append', 'insert', 'extend')
+            and isinstance(c.func.value, ast.Name)):
+      continue
+    tgt = c.func.value.id
+    n += 1
+    q, bad = c, None
+    while q in pm:
+      par = pm[q]
+      if isinstance(par, ast.If) and any(y is q for b in par.body for y in ast.walk(b)):
+        for t in ast.walk(par.test):
+          if isinstance(t, ast.Call) and unparse(t.func) == 'isinstance' and t.args and isinstance(t.args[0], ast.Name) and (
+              t.args[0].id != tgt):
+            bad = t
+      q = par
+    what = f'_set_by_path: `{unparse(c)[:30]}` is guarded by tests of `{tgt}` itself'
+    if bad is None:
+      ctx.ok(rule, fi, what, c)
+    else:
+      ctx.fail(rule, fi, what,
+               f'`{unparse(c)[:40]}` mutates `{tgt}` under `{unparse(bad)}`, a kind test of ANOTHER object: the working copy of a'
+               ' tuple node is a list, the original is not — the index append on a tuple is refused (KeyError "Failed to'
+               ' insert") instead of giving the extended tuple', node=bad)
+  ctx.floor(rule, 1, n)
+
+
 from mlmverif.selfcheck import B, OK  # noqa: E402
 
 _F = 'chainables/tree.py'
 VARIANTS = [
+    B('keys-shortcut-returns-the-configured-paths', 'chainables/tree.py',
+      "  def keys(self):\n    return tuple(k for k in self)", "  def keys(self):\n    if self.key_paths is not None:\n      return tuple(self.key_paths)\n    return tuple(k for k in self)", 'R-C18-14'),
+    B('append-guarded-by-the-kind-of-the-original', 'chainables/tree.py',
+      "          if key == len(result):\n            assert isinstance(result, list)\n            result.append(NullMap())",
+      "          if key == len(result) and isinstance(tree, list):\n            result.append(NullMap())", 'R-C18-15'),
     B('revert-root-leaf-by-truth', 'chainables/tree.py',
       "  elif data is not None and not (\n      isinstance(data, (Mapping, Sequence)) and not isinstance(data, str)\n  ):\n", "  elif data:\n", 'R-C18-13'),
     B('as-view-rewires-the-incoming-view', 'chainables/tree.py',
